@@ -3,10 +3,13 @@ import ChythonModel.Model.SmartsParse
 # C08 driver — line protocol (all arguments are ints; strings travel as code points)
 
 * `eq  <qatom> <k> <matom>*k`                    → k chars `0|1`: `query_atom == atom`
+* `vs <which 0 count|1 hyb|2 ring|3 charge> <raw>`   → the setter's stored tuple: `ok <list>` | `err ValueError`
+* `eqa <api query spec> <k> <matom>*k`              → query built from raw constructor arguments, then compared: `ok <qatom> | bits`
 * `beq <qbond> <k> (<order> <inring>)*k`          → k chars: `QueryBond == Bond`
 * `beqi <qbond> <k> <order>*k`                    → `QueryBond == int`
 * `beqq <qbond> <qbond>`                          → `QueryBond == QueryBond`
 * `qb <mode 0=int|1=list> <inring> <stereo> <k> <o>*k` → `QueryBond(...)` constructor: `ok <qbond>` | `err Kind`
+* `fb <order> <inring> <stereo> <fStereo> <fRing>`   → `QueryBond.from_bond`: `ok <qbond> <bit: matches its bond>`
 * `fa <flags5> <matom>`                           → `QueryElement.from_atom`: `ok <qatom>` | `err ValueError`
 * `lab <mol> <nrings> (<len> <atom>*len)*`        → `calc_labels`: per atom `id nb het hyb eh k r*k deg b*deg` joined by ` ; `
 * `qp <cp>*`                                      → `_query_parse`
@@ -78,6 +81,31 @@ def readQBond (xs : List Int) : Option (QBond × List Int) := do
   let (os, r) ← takeList xs
   match r with
   | ir :: st :: r' => some ({ orders := nats os, inRing := tri ir, stereo := tri st }, r')
+  | _ => none
+
+def readRaw (xs : List Int) : Option (RawArg × List Int) :=
+  match xs with
+  | 0 :: rest => some (.none, rest)
+  | 1 :: v :: rest => some (.int v, rest)
+  | 2 :: rest => (takeList rest).map fun (l, r) => (.lst l, r)
+  | _ => none
+
+/-- `kind z iso nzs zs* charge radical stereo masked` then five raw arguments (neighbors, hybridization, ring sizes, hydrogens, heteroatoms) -/
+def readApi (xs : List Int) : Option (Except PyErr QAtom × List Int) := do
+  match xs with
+  | k :: z :: iso :: rest =>
+    let (zs, r1) ← takeList rest
+    match r1 with
+    | ch :: rad :: st :: mk :: r2 =>
+      let (nb, r3) ← readRaw r2
+      let (hy, r4) ← readRaw r3
+      let (rs, r5) ← readRaw r4
+      let (ih, r6) ← readRaw r5
+      let (he, r7) ← readRaw r6
+      let kind : QKind := if k == 0 then .element z.toNat (optNat iso) else if k == 1 then .any
+                          else if k == 2 then .list (nats zs) else .metal
+      some (apiQuery kind ch (rad != 0) nb hy rs ih he (tri st) (mk != 0), r7)
+    | _ => none
   | _ => none
 
 def bits (l : List Bool) : String := String.ofList (l.map fun b => if b then '1' else '0')
@@ -160,6 +188,25 @@ def handle (line : String) : String :=
             | some (as, _) => bits (as.map (pyEq q))
             | none => "error matoms")
          | _ => "error qatom")
+      | "vs" =>
+        (match xs with
+         | which :: rest =>
+           (match readRaw rest with
+            | some (a, _) =>
+              let r := if which == 0 then validateCount a else if which == 1 then validateHyb a
+                       else if which == 2 then validateRing a
+                       else (match a with | .int v => (validateCharge v).map fun c => [c.toNat, (-c).toNat] | _ => .error .typeError)
+              (match r with | .ok l => "ok " ++ showList l | .error e => "err " ++ e.name)
+            | none => "error raw")
+         | _ => "error vs")
+      | "eqa" =>
+        (match readApi xs with
+         | some (.ok q, k :: rest) =>
+           (match readMany readMAtom k.toNat rest with
+            | some (as, _) => "ok " ++ showQAtom q ++ " | " ++ bits (as.map (pyEq q))
+            | none => "error matoms")
+         | some (.error e, _) => "err " ++ e.name
+         | _ => "error api")
       | "beq" =>
         (match readQBond xs with
          | some (q, k :: rest) =>
@@ -190,6 +237,12 @@ def handle (line : String) : String :=
               (match r with | .ok q => "ok " ++ showQBond q | .error e => "err " ++ e.name)
             | none => "error list")
          | _ => "error qb")
+      | "fb" =>
+        (match xs with
+         | o :: r :: st :: fs :: fr :: _ =>
+           let q := fromBond ⟨o.toNat, r != 0⟩ (tri st) (fs != 0) (fr != 0)
+           "ok " ++ showQBond q ++ " " ++ bits [bondEq q ⟨o.toNat, r != 0⟩]
+         | _ => "error fb")
       | "fa" =>
         (match xs with
          | f1 :: f2 :: f3 :: f4 :: f5 :: rest =>
